@@ -16,7 +16,8 @@ pub struct FileCase {
     /// finalize() is also called after shape i when bit i (mod 32) is set
     #[serde(default)]
     pub mid_fins: u32,
-    /// a shape of another type is offered (and must be rejected) before shape i when bit i (mod 32) is set
+    /// a shape of another type is offered (and must be rejected) before shape i (i >= 1) when bit i (mod 32) is set;
+    /// bit 0: finalize() is called on the fresh writer before the first write
     #[serde(default)]
     pub rejects: u32,
     pub geoms: Vec<Geom>,
@@ -50,7 +51,7 @@ pub fn file_case(g: FileGen) -> BoxedStrategy<FileCase> {
         disk_every,
     } = g;
     let fins = prop_oneof![3 => Just(0u32), 2 => any::<u32>(), 1 => (0u32..32).prop_map(|b| 1 << b)];
-    let rej = prop_oneof![4 => Just(0u32), 1 => any::<u32>(), 1 => (1u32..32).prop_map(|b| 1 << b)];
+    let rej = prop_oneof![4 => Just(0u32), 1 => any::<u32>(), 1 => (1u32..32).prop_map(|b| 1 << b), 1 => Just(1u32)];
     (gen::ty13(), ctor(), finish(), 0u32..disk_every.max(1), fins, rej)
         .prop_flat_map(move |(ty, ctor, fin, d, mid_fins, rejects)| {
             gen::shapes(ty, min_n, max_n, nan_zm, max_parts, max_pts).prop_map(move |geoms| FileCase {
